@@ -122,7 +122,7 @@ ROWS = {
     "dashu_int::buffer::Buffer::push_repeat": ("write of n words at ptr+len", _need(('Le', N, ('bin', 'Sub', CAP, LEN))), [CAP]),
     "dashu_int::buffer::Buffer::push_zeros_front": ("move len words by n, write n words", _need(('Le', N, ('bin', 'Sub', CAP, LEN))), [LEN, CAP]),
     "dashu_int::buffer::Buffer::push_slice": ("copy of words.len() words to ptr+len", _push_slice, [LEN, CAP]),
-    "dashu_int::buffer::Buffer::pop_zeros": ("reads stay inside [0, len)", _need(('Lt', ('const', 0, 'usize'), LEN)), []),
+    "dashu_int::buffer::Buffer::pop_zeros": ("reads stay inside [0, len)", None, []),     # decided by _len_positive_dataflow (len is written inside the loop)
     "dashu_int::buffer::Buffer::erase_front": ("move of len-n words from ptr+n", _need(('Le', N, LEN)), [LEN]),
     "dashu_int::buffer::Buffer::lowest_dword": ("read of words 0 and 1", _need(('Le', ('const', 2, 'usize'), LEN)), [LEN]),
     "dashu_int::buffer::Buffer::lowest_dword_mut": ("&mut of words 0 and 1", _need(('Le', ('const', 2, 'usize'), LEN)), [LEN]),
@@ -163,6 +163,59 @@ RAW_OPS = {"core::ptr::write", "core::ptr::read", "core::ptr::copy", "core::ptr:
            "core::ptr::mut_ptr::<impl *mut T>::copy_from"}
 
 
+def _len_positive_dataflow(fn, S, cfg, op_bb):
+    """`self.len > 0` holds at the entry of block op_bb on *every* path, taking writes to self.len into account:
+    forward must-analysis; an edge whose fact implies len != 0 establishes it, a block that assigns self.len
+    (or hands &mut self to a call) destroys it.  A guard checked once before a loop that decrements len does not
+    cover the reads of later iterations."""
+    body = fn["mir"]
+    good_edge = set()
+    for a, b, fact in S.edge_facts():
+        for c in guards.constraints(fact):
+            if c[0] == 'rel':
+                _, op, A, B = c
+                A2, B2 = strip_bb(sym.strip_casts(A)), strip_bb(sym.strip_casts(B))
+                if (A2 == LEN and B2[0] == 'const' and ((op in ('Gt', 'Ne') and B2[1] == 0) or (op == 'Ge' and B2[1] >= 1))) or \
+                   (B2 == LEN and A2[0] == 'const' and ((op in ('Lt', 'Ne') and A2[1] == 0) or (op == 'Le' and A2[1] >= 1))):
+                    good_edge.add((a, b))
+            elif c[0] == 'unary' and strip_bb(sym.strip_casts(c[1])) == LEN:
+                try:
+                    if not c[2](0):
+                        good_edge.add((a, b))
+                except Exception:
+                    pass
+    writes = set()
+    for i, bb in enumerate(body["bbs"]):
+        for st in bb["s"]:
+            if st["k"] == "as" and st["p"]["l"] == 1 and any(e.get("k") == "f" and e.get("n") == "len" for e in st["p"].get("p", [])):
+                writes.add(i)
+    n = len(body["bbs"])
+    reach = cfg.reachable()
+    IN = {i: True for i in range(n)}
+    IN[0] = False
+    preds = {i: [] for i in range(n)}
+    for a in range(n):
+        for b in cfg.succ[a]:
+            preds[b].append(a)
+    changed = True
+    while changed:
+        changed = False
+        for b in range(n):
+            if b == 0 or b not in reach:
+                continue
+            v = True
+            ps = [p_ for p_ in preds[b] if p_ in reach]
+            if not ps:
+                continue
+            for p_ in ps:
+                out = True if (p_, b) in good_edge else (IN[p_] and p_ not in writes)
+                v = v and out
+            if v != IN[b]:
+                IN[b] = v
+                changed = True
+    return "self.len > 0 on every path into the read, writes to self.len accounted for" if IN.get(op_bb) else None
+
+
 def raw_op_blocks(fn):
     out = []
     S = sym.Sym(fn)
@@ -198,7 +251,10 @@ def _r17_5(res, P, cfgname):
             n += 1
             key = "%s|%s" % (path, opname)
             rels = rels_at(S, cfg, bb)
-            reason = pred(rels, S, fn)
+            if pred is None:
+                reason = _len_positive_dataflow(fn, S, cfg, bb)
+            else:
+                reason = pred(rels, S, fn)
             if reason is None:
                 res.fail("R17.5", cfgname, key,
                          "raw access `%s` in %s (%s) is not dominated by its release-surviving bound check; facts here: %s"
